@@ -174,7 +174,60 @@ def judgeEq : Judge := liftJudge fun input obs => do
          tags := tags, nontrivial := a.length == b.length && !a.isEmpty,
          sig := if spec then "" else "isDataEqual-wrong" }
 
-def judges : List (String × Judge) := [("C19", judge), ("C19eq", judgeEq)]
+/-! ### data path below pull -/
+
+def sortPairs (l : List (String × String)) : List (String × String) :=
+  l.foldl (fun acc e =>
+    let (lo, hi) := acc.span (fun x => x.1 < e.1)
+    lo ++ [e] ++ hi) []
+
+def judgeOps : Judge := liftJudge fun input obs => do
+  match obsPanic obs with
+  | some m => pure { agree := false, spec := false, sig := "panic:cluster-get", note := m }
+  | none =>
+  match obs.getObjVal? "error" with
+  | .ok e => pure { agree := false, spec := true, note := "harness: " ++ e.compress, nontrivial := false }
+  | .error _ =>
+  let storeJ ← input.getObjVal? "store"
+  let store ← parsePairs storeJ
+  let callsJ ← getArr input "calls"
+  let resJ ← getArr obs "res"
+  let mut agree := resJ.size == callsJ.size
+  let mut spec := true
+  let mut sig := ""
+  let mut tags : List String := []
+  for (cJ, rJ) in callsJ.toList.zip resJ.toList do
+    let fn ← getStr cJ "fn"
+    let key ← getStr cJ "key"
+    let fail := optBool cJ "fail"
+    let err ← getBool rJ "err"
+    let isNil := optBool rJ "nil"
+    let kvsJ ← rJ.getObjVal? "kvs"
+    let kvs ← parsePairs kvsJ
+    let pfx := fn == "GetRawPrefix" || fn == "GetPrefix" || fn == "pullPrefix"
+    let content := sortPairs (store.filter fun e => if pfx then key.isPrefixOf e.1 else e.1 == key)
+    let resp : EtcdResp := if fail then .error else .kvs (content.map fun (k, v) => ⟨k, v⟩)
+    -- model
+    let (mErr, mNil, mKvs) : Bool × Option Bool × List (String × String) :=
+      match fn with
+      | "GetRaw" => let r := getRaw resp; (r.2, some r.1.isNone, (r.1.map fun kv => [(kv.key, kv.value)]).getD [])
+      | "Get" => let r := get resp; (r.2, some r.1.isNone, (r.1.map fun v => [(key, v)]).getD [])
+      | "GetRawPrefix" => let r := getRawPrefix resp; (r.2, none, r.1.map fun e => (e.1, (e.2.map (·.value)).getD "<nil>"))
+      | "GetPrefix" => let r := getPrefix resp; (r.2, none, r.1)
+      | _ => match pull pfx resp with
+             | none => (true, none, [])
+             | some d => (false, none, d.map fun e => (e.1, (e.2.map (·.value)).getD "<nil>"))
+    let okModel := err == mErr && sortPairs kvs == sortPairs mKvs && (match mNil with | some b => b == isNil | none => true)
+    -- property: a failed read reports an error and no content; a successful read the store's content
+    let okSpec := if fail then err && kvs.isEmpty else !err && sortPairs kvs == content
+    if !okModel then agree := false
+    if !okSpec then
+      spec := false
+      if sig == "" then sig := (if fail then "read-error-swallowed:" else "read-result-wrong:") ++ fn
+    tags := tags ++ [fn ++ (if fail then ":error" else if content.isEmpty then ":not-found" else ":found")]
+  pure { agree := agree, spec := spec, tags := tags.eraseDups, nontrivial := true, sig := sig }
+
+def judges : List (String × Judge) := [("C19", judge), ("C19eq", judgeEq), ("C19ops", judgeOps)]
 
 end Driver.C19
 
